@@ -1103,23 +1103,43 @@ def mon_B(case, pid):
                     continue
                 yield finding("C17", st, f"call panicked: {res}", f"C17/caller-panic/site={site}")
             before = cs["prev_pcs"]
-            if not snap["shut"]:
-                if before.get("w") not in (None, "finished") and pcs.get("w") == "finished":
-                    # the site is named by the worker's position AND by what the panic said (the `# panic` notes of the case; the
-                    # worker thread is unnamed): a death at the same position for another reason is another finding
-                    said = " ".join(n for n in case.notes if n.startswith("# panic") and not re.search(r"thread=c\d", n))
-                    expected = {"store.put": ("time-overflow", "PutWithTTL", "overflow_when_adding_duration"), "ttl.put": ("time-overflow", "PutWithTTL", "overflow_when_adding_duration"),
-                                "kw.update": ("weight-overflow", "UpdateWeight", "with_overflow")}.get(before.get("w"))
-                    if expected and expected[2] in said:
-                        site, cmd = expected[0], expected[1]
+            # a `shutdown()` that clears the store, the charges or the total while a command (or a sweep eviction) stands between
+            # its own steps: the overlap of known finding D10 (the same test as in the C05 clause above)
+            busy = pcs.get("w") not in ("worker.recv", "worker.drain", "finished") or pcs.get("s") not in ("sweep.begin", "sweep.end", "finished")
+            if busy and any(v in ("shutdown.store_clear", "shutdown.kw_clear", "shutdown.wu_zero") for v in clients.values()):
+                cs["raced"] = True
+            # The command worker never ends inside a case (it ends with the cache, after the last step): `finished` reached from
+            # any position is a death, whether or not `shutdown()` has been called - a command queued before the `Shutdown`
+            # command is still executed, and its caller still waits for its acknowledgement.
+            if before.get("w") not in (None, "finished") and pcs.get("w") == "finished":
+                # the site is named by the worker's position AND by what the panic said (the `# panic` notes of the case; the
+                # worker thread is unnamed): a death at the same position for another reason is another finding
+                said = " ".join(n for n in case.notes if n.startswith("# panic") and not re.search(r"thread=c\d", n))
+                expected = {"store.put": ("time-overflow", "PutWithTTL", "overflow_when_adding_duration"), "ttl.put": ("time-overflow", "PutWithTTL", "overflow_when_adding_duration"),
+                            "kw.update": ("weight-overflow", "UpdateWeight", "with_overflow")}.get(before.get("w"))
+                if expected and expected[2] in said:
+                    site, cmd = expected[0], expected[1]
+                elif before.get("w") == "wu.space" and re.search(r"cache_weight\.rs:\d+ msg=attempt_to_subtract_with_overflow", said):
+                    # `is_space_available_for`: max_weight - weight_used outside i64. With 0 <= weight_used this cannot happen
+                    # (theorem C17_layerB_space_overflow_needs_negative_total); a NEGATIVE total is what known finding D10 leaves
+                    # when shutdown() zeroes weight_used under a delete / an eviction that has yet to subtract. Only that case is
+                    # the recorded consequence of D10; the same panic with a total that was not negative, or without such an
+                    # overlap in the case, is something else.
+                    total_before = cs.get("prev_wu")
+                    if total_before is not None and total_before < 0 and cs.get("raced"):
+                        site, cmd = "space-overflow-after-shutdown-race", "Put"
                     else:
-                        where = re.search(r"at=(\S+) msg=(\S{0,60})", said)
-                        site, cmd = f"{before.get('w')}/unclassified:{where.group(1).split('/')[-1] + ':' + where.group(2) if where else 'no-panic-note'}", "?"
-                    yield finding("C17", st, f"the command worker died at {before.get('w')}: {said[:200]}", f"C17/worker-died/site={site}/cmd={cmd}")
+                        site, cmd = f"space-overflow/total-before={'negative' if (total_before or 0) < 0 else 'not-negative' if total_before is not None else 'locked'}/{'shutdown-race' if cs.get('raced') else 'no-shutdown-race'}", "Put"
+                else:
+                    where = re.search(r"at=(\S+) msg=(\S{0,60})", said)
+                    site, cmd = f"{before.get('w')}/unclassified:{where.group(1).split('/')[-1] + ':' + where.group(2) if where else 'no-panic-note'}", "?"
+                yield finding("C17", st, f"the command worker died at {before.get('w')}{' (total ' + str(cs.get('prev_wu')) + ' before the step, limit ' + str(mx) + ')' if before.get('w') == 'wu.space' else ''}: {said[:200]}", f"C17/worker-died/site={site}/cmd={cmd}")
+            if not snap["shut"]:
                 if before.get("s") not in (None, "finished") and pcs.get("s") == "finished":
                     yield finding("C17", st, f"the sweeper died at {before.get('s')}", "C17/sweeper-died")
                 if snap["consumer"] is False and cs.get("consumer", True):
                     yield finding("C17", st, "the access-count consumer died", "C17/consumer-died")
+            cs["prev_wu"] = None if locked else snap["wu"]
             cs["consumer"] = snap["consumer"]
             cs["prev_pcs"] = pcs
         if pid in ("C03", "C09", "C10"):
